@@ -11,10 +11,16 @@ A Python-level exception the analysed code would raise on an abstract input is `
 (-> a RAISES row of the table).
 """
 import ast
+import builtins as _builtins
 import collections
+import copy as _copy
+import functools as _functools
 import itertools
+import math as _math
 import operator
 import pathlib
+import string as _string
+import textwrap as _textwrap
 
 
 class Unsupported(Exception):
@@ -22,10 +28,37 @@ class Unsupported(Exception):
 
 
 class PyRaise(Exception):
-    def __init__(self, exc, where=None):
+    """an exception the analysed code raises: `exc` is the class name, `value` the exception value the handler binds
+    (an ExcV for built-in exceptions, an Obj for repository exception classes)"""
+
+    def __init__(self, exc, where=None, value=None):
         super().__init__(exc)
         self.exc = exc
         self.where = where
+        self.value = value
+
+
+class ExcV:
+    """instance of a built-in exception class"""
+
+    def __init__(self, name, args=()):
+        self.name, self.args = name, tuple(args)
+
+    def __str__(self):
+        if self.name == "KeyError" and len(self.args) == 1:
+            return repr(self.args[0])
+        return str(self.args[0]) if len(self.args) == 1 else (str(self.args) if self.args else "")
+
+    def __repr__(self):
+        return f"{self.name}({', '.join(map(repr, self.args))})"
+
+
+def _exc_is_sub(name, handler):
+    """built-in exception hierarchy by name"""
+    a, b = getattr(_builtins, name, None), getattr(_builtins, handler, None)
+    if isinstance(a, type) and isinstance(b, type):
+        return issubclass(a, b)
+    return name == handler
 
 
 class _Ret(Exception):
@@ -41,18 +74,44 @@ class _Continue(Exception):
     pass
 
 
+def _cached(fn):
+    key = "_c_" + fn.__name__
+
+    def wrapper(self):
+        d = self.__dict__
+        if key not in d:
+            d[key] = fn(self)
+        return d[key]
+    return wrapper
+
+
 class ClassV:
-    def __init__(self, mod, node):
+    runtime_assigned = set()     # names of class attributes rebound after class creation (rare; keeps lookups cheap)
+
+    def __init__(self, mod, node, closure=None):
         self.mod, self.node, self.name = mod, node, node.name
+        self.closure = closure      # enclosing function environment of a class defined inside a function
+        self.attrs = {}             # class attributes, evaluated once (and rebindable) like CPython's class namespace
         self._bases = None
         self._mro = None
+        self._dunder = {}
+
+    def __deepcopy__(self, memo):
+        return self
+
+    def dunder(self, name):
+        """(class, FunctionDef) of a special method, cached"""
+        if name not in self._dunder:
+            c, st = self.find(name)
+            self._dunder[name] = (c, st) if isinstance(st, ast.FunctionDef) else (None, None)
+        return self._dunder[name]
 
     def bases(self):
         if self._bases is None:
             out = []
             for b in self.node.bases:
                 try:
-                    v = self.mod.ev(b, {})
+                    v = self.mod.ev(b, {"__parent__": self.closure} if self.closure is not None else {})
                 except (Unsupported, PyRaise):
                     v = None
                 if isinstance(v, ClassV):
@@ -73,6 +132,7 @@ class ClassV:
             self._mro = out
         return self._mro
 
+    @_cached
     def ext_bases(self):
         s = set()
         for c in self.mro():
@@ -117,12 +177,50 @@ class ClassV:
                     return c, m
         return None, None
 
+    @_cached
     def is_dataclass(self):
-        return any("dataclass" in ast.unparse(d) for c in self.mro() for d in c.node.decorator_list)
+        return any("dataclass" in ast.unparse(d) for c in self.mro() for d in c.node.decorator_list) or self.is_namedtuple()
 
+    @_cached
+    def is_namedtuple(self):
+        return any(e.split(".")[-1] == "NamedTuple" for e in self.ext_bases())
+
+    @_cached
+    def is_frozen(self):
+        if self.is_namedtuple():
+            return True
+        for c in self.mro():
+            for d in c.node.decorator_list:
+                if isinstance(d, ast.Call) and "dataclass" in ast.unparse(d.func):
+                    for k in d.keywords:
+                        if k.arg in ("frozen", "unsafe_hash") and isinstance(k.value, ast.Constant) and k.value.value:
+                            return True
+        return False
+
+    @_cached
+    def dataclass_eq(self):
+        for c in self.mro():
+            for d in c.node.decorator_list:
+                if isinstance(d, ast.Call) and "dataclass" in ast.unparse(d.func):
+                    for k in d.keywords:
+                        if k.arg == "eq" and isinstance(k.value, ast.Constant) and not k.value.value:
+                            return False
+        return True
+
+    @_cached
     def is_enum(self):
         return any("Enum" in e for e in self.ext_bases())
 
+    @_cached
+    def enum_member_names(self):
+        out = []
+        for c in reversed(self.mro()):
+            for st in c.node.body:
+                if isinstance(st, ast.Assign) and len(st.targets) == 1 and isinstance(st.targets[0], ast.Name) and not st.targets[0].id.startswith("_"):
+                    out.append(st.targets[0].id)
+        return out
+
+    @_cached
     def dataclass_fields(self):
         out = []
         for c in reversed(self.mro()):
@@ -156,17 +254,48 @@ class EnumMember:
     def __init__(self, cls, name, value):
         self.cls, self.name, self.value = cls, name, value
 
+    def __deepcopy__(self, memo):
+        return self
+
+    def _call(self, name, *args):
+        c, st = self.cls.dunder(name)
+        if st is None:
+            return NotImplemented
+        return Interp(c.mod).call_func(FuncV(c.mod, st, self_obj=self, owner=c), list(args), {})
+
     def __eq__(self, o):
-        return isinstance(o, EnumMember) and self.value == o.value
+        if self is o:
+            return True
+        r = self._call("__eq__", o)
+        if r is not NotImplemented:
+            return bool(r)
+        # enum.Enum: members are singletons; IntEnum members also equal their integer value
+        if isinstance(o, EnumMember):
+            return self.cls is o.cls and self.name == o.name
+        if any(e.split(".")[-1] in ("IntEnum", "IntFlag") for e in self.cls.ext_bases()):
+            return self.value == o
+        return False
 
     def __ne__(self, o):
+        r = self._call("__ne__", o)
+        if r is not NotImplemented:
+            return bool(r)
         return not self.__eq__(o)
 
     def __lt__(self, o):
-        return self.value < o.value
+        r = self._call("__lt__", o)
+        if r is not NotImplemented:
+            return bool(r)
+        if any(e.split(".")[-1] in ("IntEnum", "IntFlag") for e in self.cls.ext_bases()):
+            return self.value < (o.value if isinstance(o, EnumMember) else o)
+        return NotImplemented
 
     def __hash__(self):
-        return hash(self.value)
+        h = self.__dict__.get("_hash")
+        if h is None:
+            r = self._call("__hash__")
+            h = self._hash = r if r is not NotImplemented else hash(self.name)
+        return h
 
     def __repr__(self):
         return f"{self.cls.name}.{self.name}"
@@ -180,18 +309,65 @@ class Obj:
         self.cls, self.fields = cls, dict(fields)
         self.oid = next(Obj._count)
 
+    def _call(self, name, *args):
+        c, st = self.cls.dunder(name)
+        if st is None:
+            return NotImplemented
+        it = Interp(c.mod)
+        return it.call_func(FuncV(c.mod, st, self_obj=self, owner=c), list(args), {})
+
     def __eq__(self, o):
         if self is o:
             return True
-        if isinstance(o, Obj) and self.cls is o.cls and self.cls.is_dataclass():
+        r = self._call("__eq__", o)
+        if r is not NotImplemented:
+            return Interp(self.cls.mod).truth(r) if not (isinstance(r, tuple) and r == ("builtin", "NotImplemented")) else False
+        if isinstance(o, Obj) and self.cls is o.cls and self.cls.is_dataclass() and self.cls.dataclass_eq():
             return self.fields == o.fields
         return False
 
     def __ne__(self, o):
+        r = self._call("__ne__", o)
+        if r is not NotImplemented:
+            return Interp(self.cls.mod).truth(r)
         return not self.__eq__(o)
 
     def __hash__(self):
+        r = self._call("__hash__")
+        if r is not NotImplemented:
+            return r
+        if self.cls.is_dataclass() and self.cls.is_frozen():
+            return hash(tuple(self.fields.values()))
         return id(self)
+
+    def _order(self, name, o):
+        r = self._call(name, o)
+        if r is NotImplemented or (isinstance(r, tuple) and r == ("builtin", "NotImplemented")):
+            return NotImplemented
+        return Interp(self.cls.mod).truth(r)
+
+    def __lt__(self, o):
+        return self._order("__lt__", o)
+
+    def __le__(self, o):
+        return self._order("__le__", o)
+
+    def __gt__(self, o):
+        return self._order("__gt__", o)
+
+    def __ge__(self, o):
+        return self._order("__ge__", o)
+
+    def __copy__(self):
+        n = Obj(self.cls)
+        n.fields = dict(self.fields)
+        return n
+
+    def __deepcopy__(self, memo):
+        n = Obj(self.cls)
+        memo[id(self)] = n
+        n.fields = {k: _copy.deepcopy(v, memo) for k, v in self.fields.items()}
+        return n
 
     def __repr__(self):
         if self.cls.is_dataclass():
@@ -202,10 +378,45 @@ class Obj:
 
 class FuncV:
     def __init__(self, mod, node, closure=None, self_obj=None, owner=None):
+        if closure is None and owner is not None and getattr(owner, "closure", None) is not None:
+            closure = owner.closure
         self.mod, self.node, self.closure, self.self_obj, self.owner = mod, node, closure, self_obj, owner
+
+    def __deepcopy__(self, memo):
+        return self
 
     def __repr__(self):
         return f'<func {getattr(self.node, "name", "lambda")}>'
+
+
+class GenV:
+    """generator object: the body runs to completion at the first request for an element (stated limit of the evaluator:
+    side effects of a generator interleave with its consumer only through the elements already produced)"""
+
+    def __init__(self, run):
+        self._run, self._items, self._pos = run, None, 0
+
+    def items(self):
+        if self._items is None:
+            self._items = self._run()
+        return self._items
+
+    def __iter__(self):
+        return self
+
+    def __next__(self):
+        xs = self.items()
+        if self._pos >= len(xs):
+            raise StopIteration
+        self._pos += 1
+        return xs[self._pos - 1]
+
+
+class BoundHost:
+    """functools.partial and friends over abstract callables"""
+
+    def __init__(self, f, args, kw):
+        self.f, self.args, self.kw = f, list(args), dict(kw)
 
 
 class Term:
@@ -306,14 +517,40 @@ class SuperV:
 
 
 BUILTIN_TYPES = {"int": int, "str": str, "bool": bool, "list": list, "set": set, "tuple": tuple, "dict": dict,
-                 "frozenset": frozenset, "bytes": bytes}
+                 "frozenset": frozenset, "bytes": bytes, "bytearray": bytearray, "float": float, "slice": slice, "complex": complex}
 BUILTIN_FUNCS = ("open", "dir", "isinstance", "len", "range", "max", "min", "sorted", "print", "any", "all", "map", "getattr", "enumerate",
-                 "zip", "sum", "abs", "repr", "hasattr", "reversed", "issubclass", "filter", "hash", "id", "type")
+                 "zip", "sum", "abs", "repr", "hasattr", "reversed", "issubclass", "filter", "hash", "id", "type", "iter", "next", "callable",
+                 "divmod", "pow", "round", "ord", "chr", "hex", "oct", "bin", "setattr", "delattr", "format", "vars", "object", "ascii")
 OPAQUE_MODULES = ("logging", "sys", "os", "inspect")
 # pure standard-library helpers the repository calls on concrete strings (literal decoding, regex matching):
 # they are executed as the interpreter's own library, never as repository code
-PURE_STDLIB = ("base64", "binascii", "re", "string", "html", "json", "pathlib", "posixpath")
+PURE_STDLIB = ("base64", "binascii", "re", "string", "html", "json", "pathlib", "posixpath", "textwrap", "math", "copy", "operator", "itertools",
+               "collections", "functools", "contextlib", "_collections", "_functools", "_operator", "_json", "builtins")
 TYPING_NAMES = ("typing", "abc", "dataclasses", "functools", "enum")
+
+
+class _TypingShim:
+    """`typing.X`: only cast has a run-time meaning the analysed code can observe"""
+    cast = ("builtin", "typing.cast")
+    TYPE_CHECKING = False
+
+    def __getattr__(self, a):
+        return Opaque("typing." + a)
+
+
+_TypingShim = _TypingShim()
+
+
+class _FunctoolsShim:
+    reduce = _functools.reduce
+    partial = _functools.partial
+    cmp_to_key = _functools.cmp_to_key
+
+    def __getattr__(self, a):
+        return Opaque("functools." + a)
+
+
+_FunctoolsShim = _FunctoolsShim()
 
 
 class Module:
@@ -351,7 +588,7 @@ class Module:
         if name in self.defs:
             st = self.defs[name]
             if isinstance(st, ast.FunctionDef):
-                v = FuncV(self, st)
+                v = Interp(self).decorate(st, FuncV(self, st), {})
             elif isinstance(st, ast.ClassDef):
                 v = ClassV(self, st)
             else:
@@ -359,7 +596,11 @@ class Module:
             self.values[name] = v
             return v
         if name in self.imports:
-            m, n = self.imports[name]
+            return self.resolve_import(*self.imports[name])
+        raise KeyError(name)
+
+    def resolve_import(self, m, n):
+        if True:
             mod = self.world.module(m)
             if mod is None:
                 return self.world.external(m, n)
@@ -371,7 +612,6 @@ class Module:
             if sub is not None:
                 return ("module", sub)
             raise Unsupported(f"cannot resolve {m}.{n}")
-        raise KeyError(name)
 
     def _module_value(self, name):
         # evaluate the module-level assignments in order (pure data: tables and constants)
@@ -424,10 +664,26 @@ class World:
 
     def external(self, m, n):
         top = m.split(".")[0]
-        if m == "collections" and n == "defaultdict":
-            return collections.defaultdict
-        if m == "collections" and n is None:
-            return ("pymodule", collections)
+        if m == "typing" and n == "cast":
+            return ("builtin", "typing.cast")
+        if m == "typing" and n is None:
+            return ("pymodule", _TypingShim)
+        if m == "enum" and n == "auto":
+            return ("builtin", "enum.auto")
+        if m == "functools" and n in ("lru_cache", "cache", "wraps", "total_ordering", "cached_property", "singledispatch"):
+            return Opaque(f"{m}.{n}")         # decorators: honoured where functions are defined / called
+        if m == "functools" and n is None:
+            return ("pymodule", _FunctoolsShim)
+        if m == "contextlib" and n == "contextmanager":
+            return Opaque("contextlib.contextmanager")
+        if m == "contextlib" and n == "suppress":
+            return ("builtin", "contextlib.suppress")
+        if m == "copy" and n in ("copy", "deepcopy"):
+            return ("builtin", "copy." + n)
+        if m == "functools" and n == "partial":
+            return ("builtin", "functools.partial")
+        if m == "operator" and n in ("attrgetter", "methodcaller"):
+            return ("builtin", "operator." + n)
         if top in PURE_STDLIB:
             import importlib
             pm = importlib.import_module(m)
@@ -468,6 +724,51 @@ class World:
 
     def method(self, obj, name):
         return Interp(obj.cls.mod).getattr(obj, name)
+
+
+class CtxMgrV:
+    """result of calling a @contextmanager generator function: run(at_yield) executes the body, calling at_yield(value) at the yield"""
+
+    def __init__(self, run):
+        self.run = run
+
+
+class SuppressV:
+    def __init__(self, handlers):
+        self.handlers = handlers
+
+
+def _object_class(world):
+    c = world.__dict__.get("_object_class")
+    if c is None:
+        dummy = Module(world, "builtins", ast.parse("class object:\n    pass\n"), "<builtins>")
+        c = world._object_class = ClassV(dummy, dummy.tree.body[0])
+    return c
+
+
+def _host_exc(e, where=None):
+    return PyRaise(type(e).__name__, where, ExcV(type(e).__name__, e.args))
+
+
+def _has_yield(fn):
+    """does this function body contain a yield of its own (not of a nested function)?"""
+    cached = getattr(fn, "_has_yield", None)
+    if cached is None:
+        cached = False
+        stack = list(fn.body) if not isinstance(fn, ast.Lambda) else []
+        while stack:
+            n = stack.pop()
+            if isinstance(n, (ast.Yield, ast.YieldFrom)):
+                cached = True
+                break
+            if isinstance(n, (ast.FunctionDef, ast.Lambda, ast.ClassDef, ast.AsyncFunctionDef)):
+                continue
+            stack.extend(ast.iter_child_nodes(n))
+        fn._has_yield = cached
+    return cached
+
+
+ABSTRACT = ()   # filled below
 
 
 class Interp:
@@ -555,9 +856,11 @@ class Interp:
             if not self.truth(self.ev(st.test, env)):
                 raise PyRaise("AssertionError", (self.mod.name, st.lineno))
         elif isinstance(st, ast.Raise):
-            raise PyRaise(ast.unparse(st.exc).split("(")[0] if st.exc else "reraise", (self.mod.name, st.lineno))
+            self.exec_raise(st, env)
         elif isinstance(st, ast.FunctionDef):
-            env[st.name] = FuncV(self.mod, st, closure=env)
+            self.assign(ast.Name(id=st.name, ctx=ast.Store()), self.decorate(st, self._bind_defaults(FuncV(self.mod, st, closure=env), env), env), env)
+        elif isinstance(st, ast.ClassDef):
+            env[st.name] = ClassV(self.mod, st, closure=env)
         elif isinstance(st, ast.Try):
             try:
                 try:
@@ -566,8 +869,13 @@ class Interp:
                     for h in st.handlers:
                         if self._handler_matches(h, e, env):
                             if h.name:
-                                env[h.name] = Opaque(f"exception {e.exc}")
-                            self.exec_block(h.body, env)
+                                env[h.name] = e.value if e.value is not None else ExcV(str(e.exc).split(".")[-1], ())
+                            saved = env.get("__cur_exc__")
+                            env["__cur_exc__"] = e
+                            try:
+                                self.exec_block(h.body, env)
+                            finally:
+                                env["__cur_exc__"] = saved
                             break
                     else:
                         raise
@@ -577,33 +885,81 @@ class Interp:
                 if st.finalbody:
                     self.exec_block(st.finalbody, env)
         elif isinstance(st, ast.With):
-            for item in st.items:
-                v = self.ev(item.context_expr, env)
-                if item.optional_vars is not None:
-                    self.assign(item.optional_vars, v, env)
-            self.exec_block(st.body, env)
-        elif isinstance(st, (ast.Import, ast.ImportFrom)):
-            pass
+            self.exec_with(st, 0, env)
+        elif isinstance(st, ast.Import):
+            for a in st.names:
+                env[a.asname or a.name.split(".")[0]] = self.mod.resolve_import(a.name if a.asname else a.name.split(".")[0], None)
+        elif isinstance(st, ast.ImportFrom):
+            for a in st.names:
+                env[a.asname or a.name] = self.mod.resolve_import(st.module, a.name)
+        elif isinstance(st, ast.Nonlocal):
+            env.setdefault("__nonlocal__", set()).update(st.names)
+        elif isinstance(st, ast.Global):
+            env.setdefault("__global__", set()).update(st.names)
         elif isinstance(st, ast.Delete):
             for t in st.targets:
                 if isinstance(t, ast.Subscript):
                     o = self.ev(t.value, env)
                     k = self.ev(t.slice, env)
+                    if isinstance(o, Obj):
+                        self.call_dunder(o, "__delitem__", [k], st)
+                        continue
                     try:
                         del o[k]
                     except (KeyError, IndexError) as e:
-                        raise PyRaise(type(e).__name__, (self.mod.name, st.lineno))
+                        raise _host_exc(e, (self.mod.name, st.lineno))
+                elif isinstance(t, ast.Name):
+                    if t.id in env:
+                        del env[t.id]
+                    else:
+                        raise PyRaise("NameError", (self.mod.name, st.lineno))
+                elif isinstance(t, ast.Attribute):
+                    o = self.ev(t.value, env)
+                    if isinstance(o, Obj) and t.attr in o.fields:
+                        del o.fields[t.attr]
+                    else:
+                        raise PyRaise("AttributeError", (self.mod.name, st.lineno))
                 else:
                     raise Unsupported(f"del target at {self.mod.name}:{st.lineno}")
         else:
             raise Unsupported(f"stmt {type(st).__name__} at {self.mod.name}:{st.lineno}")
 
+    def _func_env(self, env):
+        """the environment of the enclosing function (comprehension scopes are transparent)"""
+        e = env
+        while e is not None and e.get("__comp__"):
+            e = e.get("__parent__")
+        return e if e is not None else env
+
     def assign(self, t, v, env):
         if isinstance(t, ast.Name):
-            # nonlocal-free code base: a nested function assigning a name binds its own local
+            fe = self._func_env(env)
+            if t.id in fe.get("__global__", ()):
+                self.mod.values[t.id] = v
+                return
+            if t.id in fe.get("__nonlocal__", ()):
+                e = fe.get("__parent__")
+                while e is not None:
+                    if t.id in e:
+                        e[t.id] = v
+                        return
+                    e = e.get("__parent__")
+                raise Unsupported(f"nonlocal {t.id} has no binding")
             env[t.id] = v
         elif isinstance(t, (ast.Tuple, ast.List)):
             vs = list(self.iterate(v))
+            stars = [i for i, e in enumerate(t.elts) if isinstance(e, ast.Starred)]
+            if stars:
+                i = stars[0]
+                after = len(t.elts) - i - 1
+                if len(vs) < len(t.elts) - 1:
+                    raise PyRaise("ValueError", (self.mod.name, t.lineno))
+                for tt, vv in zip(t.elts[:i], vs[:i]):
+                    self.assign(tt, vv, env)
+                self.assign(t.elts[i].value, list(vs[i:len(vs) - after]), env)
+                for tt, vv in zip(t.elts[i + 1:], vs[len(vs) - after:] if after else []):
+                    self.assign(tt, vv, env)
+                return
             if len(vs) != len(t.elts):
                 raise PyRaise("ValueError", (self.mod.name, t.lineno))
             for tt, vv in zip(t.elts, vs):
@@ -612,35 +968,162 @@ class Interp:
             o = self.ev(t.value, env)
             if isinstance(o, (Obj, Opaque)):
                 self.assign_attr(o, t.attr, v)
+            elif isinstance(o, ClassV):
+                o.attrs[t.attr] = v
+                ClassV.runtime_assigned.add(t.attr)
             else:
                 raise Unsupported(f"attr store on {o!r} at {self.mod.name}:{t.lineno}")
         elif isinstance(t, ast.Subscript):
             o = self.ev(t.value, env)
             k = self.ev(t.slice, env)
+            if isinstance(o, Obj):
+                self.call_dunder(o, "__setitem__", [k, v], t)
+                return
             try:
                 o[k] = v
             except (IndexError, KeyError) as e:
-                raise PyRaise(type(e).__name__, (self.mod.name, t.lineno))
+                raise _host_exc(e, (self.mod.name, t.lineno))
             except TypeError as e:
-                raise Unsupported(f"subscript store {e} at {self.mod.name}:{t.lineno}")
+                if isinstance(o, (Opaque, Term, ClassV, FuncV)) or o is None:
+                    raise Unsupported(f"subscript store {e} at {self.mod.name}:{t.lineno}")
+                raise PyRaise("TypeError", (self.mod.name, t.lineno), ExcV("TypeError", e.args))
         else:
             raise Unsupported(f"assign target {type(t).__name__}")
+
+    def call_dunder(self, o, name, args, node=None):
+        c, st = o.cls.dunder(name)
+        if st is None:
+            raise PyRaise("TypeError", (self.mod.name if self.mod else "?", getattr(node, "lineno", 0), f"{o.cls.name} has no {name}"))
+        return Interp(c.mod).call_func(FuncV(c.mod, st, self_obj=o, owner=c), list(args), {})
+
+    def exec_raise(self, st, env):
+        where = (self.mod.name, st.lineno)
+        if st.exc is None:
+            cur = None
+            e = env
+            while e is not None and cur is None:
+                cur = e.get("__cur_exc__")
+                e = e.get("__parent__")
+            if cur is None:
+                raise PyRaise("RuntimeError", where)
+            raise cur
+        name = ast.unparse(st.exc).split("(")[0]
+        try:
+            v = self.ev(st.exc, env)
+        except Unsupported:
+            raise PyRaise(name, where)
+        if isinstance(v, tuple) and len(v) == 2 and v[0] == "exc":
+            v = ExcV(v[1], ())
+        if isinstance(v, ClassV):
+            v = self.instantiate(v, [], {})
+        if isinstance(v, ExcV):
+            raise PyRaise(v.name, where, v)
+        if isinstance(v, Obj):
+            raise PyRaise(v.cls.name, where, v)
+        raise PyRaise(name, where)
+
+    def exec_with(self, st, i, env):
+        if i == len(st.items):
+            self.exec_block(st.body, env)
+            return
+        item = st.items[i]
+        v = self.ev(item.context_expr, env)
+        if isinstance(v, CtxMgrV):
+            # contextlib.contextmanager: the body of the with statement runs where the generator yields
+            done = []
+
+            def at_yield(x):
+                if done:
+                    raise PyRaise("RuntimeError", (self.mod.name, st.lineno), ExcV("RuntimeError", ("generator didn't stop",)))
+                done.append(1)
+                if item.optional_vars is not None:
+                    self.assign(item.optional_vars, x, env)
+                self.exec_with(st, i + 1, env)
+            v.run(at_yield)
+            if not done:
+                raise PyRaise("RuntimeError", (self.mod.name, st.lineno), ExcV("RuntimeError", ("generator didn't yield",)))
+            return
+        if isinstance(v, SuppressV):
+            try:
+                self.exec_with(st, i + 1, env)
+            except PyRaise as e:
+                if not any(self._exc_matches(e, h) for h in v.handlers):
+                    raise
+            return
+        if isinstance(v, Obj) and v.cls.dunder("__enter__")[1] is not None:
+            x = self.call_dunder(v, "__enter__", [])
+            if item.optional_vars is not None:
+                self.assign(item.optional_vars, x, env)
+            try:
+                self.exec_with(st, i + 1, env)
+            except PyRaise as e:
+                r = self.call_dunder(v, "__exit__", [("exc", e.exc), e.value, None])
+                if not self.truth(r):
+                    raise
+            else:
+                # control-flow signals of the evaluator (return/break/continue) pass through; __exit__ still runs
+                self.call_dunder(v, "__exit__", [None, None, None])
+            return
+        if item.optional_vars is not None:
+            self.assign(item.optional_vars, v, env)
+        self.exec_with(st, i + 1, env)
+
+    def decorate(self, st, fv, env):
+        """apply the decorators of a function definition that are repository functions (others are honoured by name where
+        they matter: property, staticmethod, classmethod, lru_cache, contextmanager)"""
+        known = {"property", "staticmethod", "classmethod", "setter", "abstractmethod", "lru_cache", "cache", "contextmanager", "wraps",
+                 "overload", "dataclass", "cached_property", "total_ordering"}
+        for d in reversed(st.decorator_list):
+            nm = d.func if isinstance(d, ast.Call) else d
+            nm = nm.id if isinstance(nm, ast.Name) else nm.attr if isinstance(nm, ast.Attribute) else None
+            if nm in known:
+                continue
+            try:
+                dv = self.ev(d, env)
+            except (Unsupported, PyRaise, KeyError):
+                continue
+            if isinstance(dv, (FuncV, BoundHost)):
+                fv = self.call(dv, [fv], {})
+        return fv
+
+    def _exc_matches(self, e, handler):
+        """handler: ("exc", name) | ClassV | tuple of those"""
+        exc = str(e.exc).split(".")[-1]
+        if isinstance(handler, tuple) and not (len(handler) == 2 and handler[0] == "exc"):
+            return any(self._exc_matches(e, h) for h in handler)
+        raised_cls = e.value.cls if isinstance(e.value, Obj) else None
+        if isinstance(handler, ClassV):
+            if raised_cls is not None:
+                return raised_cls.is_sub(handler)
+            return exc == handler.name
+        if isinstance(handler, tuple) and handler[0] == "exc":
+            hn = handler[1]
+            if raised_cls is not None:
+                # a repository exception class: through its built-in bases
+                bases = {b.split(".")[-1] for b in raised_cls.ext_bases()}
+                return any(_exc_is_sub(b, hn) for b in bases if isinstance(getattr(_builtins, b, None), type)) or hn in ("Exception", "BaseException")
+            if isinstance(getattr(_builtins, exc, None), type):
+                return _exc_is_sub(exc, hn)
+            # an exception known by name only (raised by a library the evaluator does not see into)
+            return exc == hn or hn in ("Exception", "BaseException")
+        return False
 
     def _handler_matches(self, h, e, env):
         if h.type is None:
             return True
-        names = [ast.unparse(t).split(".")[-1] for t in (h.type.elts if isinstance(h.type, ast.Tuple) else [h.type])]
+        types = h.type.elts if isinstance(h.type, ast.Tuple) else [h.type]
         exc = str(e.exc).split(".")[-1]
-        if exc in names or "Exception" in names or "BaseException" in names:
-            return True
-        # repository exception classes: match through the hierarchy
-        for nm in names:
+        for t in types:
+            nm = ast.unparse(t).split(".")[-1]
+            if nm == exc:
+                return True
             try:
-                c = self.mod.lookup(nm)
-                x = self.mod.lookup(exc)
-            except (KeyError, Unsupported):
-                continue
-            if isinstance(c, ClassV) and isinstance(x, ClassV) and x.is_sub(c):
+                hv = self.ev(t, env)
+            except (Unsupported, PyRaise, KeyError):
+                hv = ("exc", nm)
+            if isinstance(hv, Opaque):
+                hv = ("exc", nm)
+            if self._exc_matches(e, hv):
                 return True
         return False
 
@@ -667,7 +1150,9 @@ class Interp:
             if st is not None:
                 return bool(self.call_func(FuncV(c.mod, st, self_obj=v, owner=c), [], {}))
             return True
-        if isinstance(v, (ClassV, FuncV, EnumMember)):
+        if isinstance(v, (ClassV, FuncV, EnumMember, ExcV, BoundHost)):
+            return True
+        if isinstance(v, GenV):
             return True
         return bool(v)
 
@@ -687,19 +1172,59 @@ class Interp:
                     raise PyRaise("RuntimeError", None)
                 yield x
             return
+        if isinstance(v, collections.deque):
+            n = len(v)
+            for x in list(v):
+                if len(v) != n:
+                    raise PyRaise("RuntimeError", None)
+                yield x
+            return
+        if hasattr(v, "__next__") and not isinstance(v, ABSTRACT):
+            # a host iterator (itertools object, generator object of the evaluator): consumed on demand
+            yield from v
+            return
         yield from self.iterate(v)
 
     def iterate(self, v):
         if isinstance(v, (list, tuple, set, frozenset, range, dict, str)):
             return list(v)
-        if isinstance(v, (Obj, Term, Opaque, ClassV, FuncV)) or v is None:
+        if isinstance(v, GenV):
+            out = []
+            try:
+                while True:
+                    out.append(next(v))
+            except StopIteration:
+                return out
+        if isinstance(v, Obj):
+            if v.cls.dunder("__iter__")[1] is not None:
+                return self.iterate(self.call_dunder(v, "__iter__", []))
+            if v.cls.is_namedtuple():
+                return list(v.fields.values())
+            if v.cls.dunder("__getitem__")[1] is not None:
+                out, i = [], 0
+                while True:
+                    try:
+                        out.append(self.call_dunder(v, "__getitem__", [i]))
+                    except PyRaise as e:
+                        if e.exc == "IndexError":
+                            return out
+                        raise
+                    i += 1
+            raise PyRaise("TypeError", None, ExcV("TypeError", (f"'{v.cls.name}' object is not iterable",)))
+        if isinstance(v, (Term, Opaque, ClassV, FuncV)) or v is None:
             if isinstance(v, ClassV) and v.is_enum():
-                return [self.getattr(v, st.targets[0].id) for st in v.node.body
-                        if isinstance(st, ast.Assign) and isinstance(st.targets[0], ast.Name)]
+                return [self.getattr(v, nm) for nm in v.enum_member_names()]
+            if v is None or isinstance(v, (FuncV, ClassV)):
+                raise PyRaise("TypeError", None, ExcV("TypeError", ("object is not iterable",)))
             raise Unsupported(f"iterate {v!r}")
         if hasattr(v, "__iter__"):
-            return list(v)
-        raise Unsupported(f"iterate {v!r}")
+            out = []
+            for x in v:
+                out.append(x)
+                if len(out) > 2_000_000:
+                    raise Unsupported("unbounded iteration")
+            return out
+        raise PyRaise("TypeError", None, ExcV("TypeError", ("object is not iterable",)))
 
     def ev(self, n, env):
         m = getattr(self, "ev_" + type(n).__name__, None)
@@ -727,9 +1252,46 @@ class Interp:
             return ("builtin", n.id)
         if n.id == "super":
             return ("builtin", "super")
-        if n.id in ("KeyError", "ValueError", "IndexError", "Exception", "TypeError", "AttributeError"):
+        b = getattr(_builtins, n.id, None)
+        if isinstance(b, type) and issubclass(b, BaseException):
             return ("exc", n.id)
+        if n.id == "NotImplemented":
+            return ("builtin", "NotImplemented")
+        if n.id == "Ellipsis":
+            return Ellipsis
+        if n.id == "__name__":
+            return self.mod.name
+        if n.id == "__file__":
+            return self.mod.path
         raise Unsupported(f"name {n.id} in {self.mod.name}:{n.lineno}")
+
+    def ev_NamedExpr(self, n, env):
+        v = self.ev(n.value, env)
+        self.assign(n.target, v, self._func_env(env))
+        return v
+
+    def ev_Slice(self, n, env):
+        return slice(self.ev(n.lower, env) if n.lower else None, self.ev(n.upper, env) if n.upper else None, self.ev(n.step, env) if n.step else None)
+
+    def _yield(self, v, env):
+        e = env
+        while e is not None:
+            if "__yield_cb__" in e:
+                e["__yield_cb__"](v)
+                return None
+            if "__yield__" in e:
+                e["__yield__"].append(v)
+                return None
+            e = e.get("__parent__") if e.get("__comp__") else None
+        raise Unsupported(f"yield outside a generator at {self.mod.name}")
+
+    def ev_Yield(self, n, env):
+        return self._yield(self.ev(n.value, env) if n.value else None, env)
+
+    def ev_YieldFrom(self, n, env):
+        for x in self.iterate(self.ev(n.value, env)):
+            self._yield(x, env)
+        return None
 
     def ev_Tuple(self, n, env):
         return tuple(self._elts(n.elts, env))
@@ -788,6 +1350,8 @@ class Interp:
             return -v
         if isinstance(n.op, ast.Invert):
             return ~v
+        if isinstance(n.op, ast.UAdd):
+            return v if isinstance(v, Term) else +v
         raise Unsupported("unary")
 
     def binop(self, op, a, b):
@@ -808,19 +1372,33 @@ class Interp:
         f = {ast.Add: operator.add, ast.Sub: operator.sub, ast.Mult: operator.mul, ast.BitOr: operator.or_,
              ast.BitAnd: operator.and_, ast.LShift: operator.lshift, ast.RShift: operator.rshift,
              ast.FloorDiv: operator.floordiv, ast.Mod: operator.mod, ast.Pow: operator.pow,
-             ast.BitXor: operator.xor}.get(type(op))
+             ast.BitXor: operator.xor, ast.Div: operator.truediv}.get(type(op))
+        if isinstance(op, ast.Mod) and isinstance(a, str):
+            bb = tuple(self.to_str(x) if isinstance(x, (Obj, EnumMember, Term)) else x for x in b) if isinstance(b, tuple) else (self.to_str(b) if isinstance(b, (Obj, EnumMember, Term)) else b)
+            try:
+                return a % bb
+            except (TypeError, ValueError) as e:
+                raise _host_exc(e)
         if f is None:
             raise Unsupported(f"binop {type(op).__name__}")
-        if isinstance(a, (Obj, Opaque)) or isinstance(b, (Obj, Opaque)):
-            if isinstance(a, Obj) and isinstance(op, ast.Div):
-                pass
+        if isinstance(a, Obj) or isinstance(b, Obj):
+            dn = {ast.Add: "add", ast.Sub: "sub", ast.Mult: "mul", ast.BitOr: "or", ast.BitAnd: "and", ast.BitXor: "xor", ast.FloorDiv: "floordiv",
+                  ast.Mod: "mod", ast.LShift: "lshift", ast.RShift: "rshift", ast.Pow: "pow", ast.Div: "truediv"}.get(type(op))
+            if isinstance(a, Obj) and a.cls.dunder(f"__{dn}__")[1] is not None:
+                r = self.call_dunder(a, f"__{dn}__", [b])
+                if not (isinstance(r, tuple) and r == ("builtin", "NotImplemented")):
+                    return r
+            if isinstance(b, Obj) and b.cls.dunder(f"__r{dn}__")[1] is not None:
+                return self.call_dunder(b, f"__r{dn}__", [a])
+            raise PyRaise("TypeError", None, ExcV("TypeError", (f"unsupported operand type(s) for {type(op).__name__}",)))
+        if isinstance(a, Opaque) or isinstance(b, Opaque):
             raise Unsupported(f"binop on {a!r}, {b!r}")
         try:
             return f(a, b)
         except TypeError as e:
-            raise PyRaise("TypeError", None)
-        except ZeroDivisionError:
-            raise PyRaise("ZeroDivisionError", None)
+            raise _host_exc(e)
+        except (ZeroDivisionError, ValueError, OverflowError) as e:
+            raise _host_exc(e)
 
     def ev_BinOp(self, n, env):
         a, b = self.ev(n.left, env), self.ev(n.right, env)
@@ -837,12 +1415,24 @@ class Interp:
                 r = left == right and isinstance(left, (bool, type(None), EnumMember))
             return r if isinstance(op, ast.Is) else not r
         if isinstance(op, (ast.In, ast.NotIn)):
-            if isinstance(right, (Obj, Term, Opaque)) or right is None:
+            if isinstance(right, Obj):
+                if right.cls.dunder("__contains__")[1] is not None:
+                    r = self.truth(self.call_dunder(right, "__contains__", [left]))
+                else:
+                    r = any(x is left or x == left for x in self.iterate(right))
+                return r if isinstance(op, ast.In) else not r
+            if isinstance(right, GenV):
+                right = self.iterate(right)
+            if isinstance(right, ClassV) and right.is_enum():
+                right = self.iterate(right)
+            if isinstance(right, (Term, Opaque)):
                 raise Unsupported(f"membership in {right!r}")
+            if right is None:
+                raise PyRaise("TypeError", None, ExcV("TypeError", ("argument of type 'NoneType' is not iterable",)))
             try:
                 r = left in right
-            except TypeError:
-                raise PyRaise("TypeError", None)
+            except TypeError as e:
+                raise _host_exc(e)
             return r if isinstance(op, ast.In) else not r
         if isinstance(left, Term) or isinstance(right, Term):
             if isinstance(op, ast.Eq):
@@ -850,14 +1440,12 @@ class Interp:
             if isinstance(op, ast.NotEq):
                 return not (left == right)
             raise Unsupported("ordering on symbolic term")
-        if isinstance(left, Obj) and not isinstance(op, (ast.Eq, ast.NotEq)):
-            raise Unsupported("ordering on abstract object")
         f = {ast.Eq: operator.eq, ast.NotEq: operator.ne, ast.Lt: operator.lt, ast.LtE: operator.le,
              ast.Gt: operator.gt, ast.GtE: operator.ge}[type(op)]
         try:
             return f(left, right)
-        except TypeError:
-            raise PyRaise("TypeError", None)
+        except TypeError as e:
+            raise _host_exc(e)
 
     def ev_Compare(self, n, env):
         left = self.ev(n.left, env)
@@ -872,19 +1460,45 @@ class Interp:
         o = self.ev(n.value, env)
         if isinstance(o, Opaque):
             return o          # typing subscripts: List["X"]
-        if isinstance(n.slice, ast.Slice):
+        if isinstance(n.slice, ast.Slice) and not isinstance(o, Obj):
             lo = self.ev(n.slice.lower, env) if n.slice.lower else None
             hi = self.ev(n.slice.upper, env) if n.slice.upper else None
             step = self.ev(n.slice.step, env) if n.slice.step else None
-            return o[lo:hi:step]
+            if isinstance(o, GenV) or o is None or isinstance(o, (Term, ClassV, FuncV)):
+                raise PyRaise("TypeError", (self.mod.name, n.lineno), ExcV("TypeError", ("object is not subscriptable",)))
+            try:
+                return o[lo:hi:step]
+            except (TypeError, ValueError) as e:
+                raise _host_exc(e, (self.mod.name, n.lineno))
         k = self.ev(n.slice, env)
-        if isinstance(o, (Obj, Term)) or o is None:
+        if isinstance(o, Obj):
+            if o.cls.dunder("__getitem__")[1] is not None:
+                return self.call_dunder(o, "__getitem__", [k], n)
+            if o.cls.is_namedtuple():
+                try:
+                    return list(o.fields.values())[k]
+                except IndexError as e:
+                    raise _host_exc(e, (self.mod.name, n.lineno))
+            raise PyRaise("TypeError", (self.mod.name, n.lineno), ExcV("TypeError", (f"'{o.cls.name}' object is not subscriptable",)))
+        if isinstance(o, ClassV):
+            if o.is_enum():
+                if k in o.enum_member_names():
+                    return self.getattr(o, k)
+                raise PyRaise("KeyError", (self.mod.name, n.lineno), ExcV("KeyError", (k,)))
+            return o          # generic alias of a repository class: Foo[int]
+        if isinstance(o, Term):
             raise Unsupported(f"subscript of {o!r} at {self.mod.name}:{n.lineno}")
+        if o is None:
+            raise PyRaise("TypeError", (self.mod.name, n.lineno), ExcV("TypeError", ("'NoneType' object is not subscriptable",)))
+        if isinstance(o, GenV):
+            raise PyRaise("TypeError", (self.mod.name, n.lineno), ExcV("TypeError", ("'generator' object is not subscriptable",)))
         try:
             return o[k]
         except (KeyError, IndexError) as e:
-            raise PyRaise(type(e).__name__, (self.mod.name, n.lineno))
+            raise _host_exc(e, (self.mod.name, n.lineno))
         except TypeError as e:
+            if isinstance(o, (list, tuple, dict, str, bytes, set, frozenset, range, int, collections.deque)):
+                raise PyRaise("TypeError", (self.mod.name, n.lineno), ExcV("TypeError", e.args))
             raise Unsupported(f"subscript {e} at {self.mod.name}:{n.lineno}")
 
     def to_str(self, x, use_repr=False):
@@ -893,7 +1507,13 @@ class Interp:
                 c, st = x.cls.find(name)
                 if st is not None:
                     return self.call_func(FuncV(c.mod, st, self_obj=x, owner=c), [], {})
+            if "args" in x.fields and any("Exception" in e or "Error" in e for e in x.cls.ext_bases()):
+                a = x.fields["args"]
+                body = str(a[0]) if len(a) == 1 else (str(tuple(a)) if a else "")
+                return f"{x.cls.name}({', '.join(map(repr, a))})" if use_repr else body
             return repr(x)
+        if isinstance(x, ExcV):
+            return repr(x) if use_repr else str(x)
         if isinstance(x, EnumMember):
             for name in (("__repr__", "__str__") if use_repr else ("__str__", "__repr__")):
                 c, st = x.cls.find(name)
@@ -914,7 +1534,9 @@ class Interp:
             else:
                 x = self.ev(v.value, env)
                 spec = self.ev(v.format_spec, env) if v.format_spec else ""
-                if isinstance(x, (Obj, Term, EnumMember, list)) or v.conversion == ord("r"):
+                if v.conversion == ord("s"):
+                    x = self.to_str(x) if isinstance(x, (Obj, Term, EnumMember, list, ExcV)) else str(x)
+                if isinstance(x, (Obj, Term, EnumMember, list, ExcV)) or v.conversion == ord("r"):
                     x = self.to_str(x, v.conversion == ord("r"))
                 try:
                     out += format(x, spec)
@@ -932,7 +1554,8 @@ class Interp:
         return set(self.comp(n, env))
 
     def ev_GeneratorExp(self, n, env):
-        return list(self.comp(n, env))
+        # a generator expression evaluates its first iterable at once and the rest on demand
+        return GenV(lambda: list(self.comp(n, env)))
 
     def ev_DictComp(self, n, env):
         out = {}
@@ -947,18 +1570,26 @@ class Interp:
                 return
             g = generators[i]
             for x in self.iterate_live(self.ev(g.iter, e)):
-                e2 = {"__parent__": e}
+                e2 = {"__parent__": e, "__comp__": True}
                 self.assign(g.target, x, e2)
                 if all(self.truth(self.ev(c, e2)) for c in g.ifs):
                     yield from rec(i + 1, e2)
-        return rec(0, {"__parent__": env})
+        return rec(0, {"__parent__": env, "__comp__": True})
 
     def comp(self, n, env):
         for e2 in self.comp_envs(n.generators, env):
             yield self.ev(n.elt, e2)
 
     def ev_Lambda(self, n, env):
-        return FuncV(self.mod, n, closure=env)
+        return self._bind_defaults(FuncV(self.mod, n, closure=env), env)
+
+    def _bind_defaults(self, fv, env):
+        """default values of a nested function / lambda are evaluated when the definition is executed"""
+        a = fv.node.args
+        if a.defaults or any(d is not None for d in a.kw_defaults):
+            fv.defvals = [self.ev(d, env) for d in a.defaults]
+            fv.kwdefvals = {p.arg: self.ev(d, env) for p, d in zip(a.kwonlyargs, a.kw_defaults) if d is not None}
+        return fv
 
     def ev_Attribute(self, n, env):
         o = self.ev(n.value, env)
@@ -971,7 +1602,40 @@ class Interp:
             except KeyError:
                 raise Unsupported(f"{o[1].name}.{a} not found")
         if isinstance(o, tuple) and len(o) == 2 and o[0] == "pymodule":
-            return getattr(o[1], a)
+            if o[1] is _copy or getattr(o[1], "__name__", "") == "copy":
+                return ("builtin", "copy." + a)
+            if getattr(o[1], "__name__", "") == "operator" and a in ("attrgetter", "methodcaller"):
+                return ("builtin", "operator." + a)
+            if getattr(o[1], "__name__", "") == "contextlib":
+                return self.mod.world.external("contextlib", a) if self.mod else Opaque("contextlib." + a)
+            if getattr(o[1], "__name__", "") == "functools" and a in ("lru_cache", "cache", "wraps", "total_ordering", "cached_property"):
+                return Opaque("functools." + a)
+            if getattr(o[1], "__name__", "") == "functools" and a == "partial":
+                return ("builtin", "functools.partial")
+            try:
+                return getattr(o[1], a)
+            except AttributeError:
+                raise PyRaise("AttributeError", None)
+        if isinstance(o, tuple) and len(o) == 2 and o[0] == "exc":
+            if a in ("__name__", "__qualname__"):
+                return o[1]
+            raise Unsupported(f"getattr {o!r}.{a}")
+        if isinstance(o, ExcV):
+            if a == "args":
+                return o.args
+            if a == "__class__":
+                return ("exc", o.name)
+            if a in ("errno", "strerror", "filename", "code"):
+                return None
+            raise PyRaise("AttributeError", None)
+        if isinstance(o, BoundHost):
+            if a == "func":
+                return o.f
+            if a == "args":
+                return tuple(o.args)
+            if a == "keywords":
+                return dict(o.kw)
+            raise PyRaise("AttributeError", None)
         if isinstance(o, Opaque):
             if o.name == "sys" and a == "exit":
                 return ("builtin", "sys.exit")
@@ -984,17 +1648,118 @@ class Interp:
             c, st = o.self_obj.cls.find(a, after=o.owner)
             if st is None:
                 if a == "__init__":
+                    so = o.self_obj
+                    if isinstance(so, Obj) and any("Exception" in e or "Error" in e for e in so.cls.ext_bases()):
+                        def exc_init(*args, **kw):
+                            so.fields["args"] = tuple(args)
+                        return ("host", exc_init)
                     return ("builtin", "noop")
+                if a in ("__eq__", "__hash__", "__ne__", "__repr__", "__str__", "__init_subclass__", "__post_init__", "__setattr__", "__enter__", "__exit__"):
+                    so = o.self_obj
+                    table = {"__eq__": lambda other: so is other, "__ne__": lambda other: so is not other, "__hash__": lambda: id(so),
+                             "__repr__": lambda: repr(so), "__str__": lambda: repr(so), "__setattr__": lambda k, v: so.fields.__setitem__(k, v)}
+                    return ("host", table.get(a, lambda *x, **k: None))
                 raise PyRaise("AttributeError", None)
-            return FuncV(c.mod, st, self_obj=o.self_obj, owner=c)
+            if isinstance(st, ast.FunctionDef):
+                decs = _decorators(st)
+                if "staticmethod" in decs:
+                    return FuncV(c.mod, st, owner=c)
+                if "classmethod" in decs:
+                    return FuncV(c.mod, st, self_obj=o.self_obj if isinstance(o.self_obj, ClassV) else o.self_obj.cls, owner=c)
+                f = FuncV(c.mod, st, self_obj=o.self_obj, owner=c)
+                if "property" in decs:
+                    return Interp(c.mod).call_func(f, [], {})
+                return f
+            return self._class_attr(c, a, st)
         if isinstance(o, Obj):
             if a in o.fields:
                 return o.fields[a]
             c, st = o.cls.find(a)
+            if a in ClassV.runtime_assigned:
+                for k in o.cls.mro():
+                    if a in k.attrs:
+                        return k.attrs[a]
+                    if k is c:
+                        break
             if st is None:
                 if a == "__class__":
                     return o.cls
-                raise PyRaise("AttributeError", (self.mod.name if self.mod else "?", getattr(node, "lineno", 0), f"{o.cls.name}.{a}"))
+                if a == "__dict__":
+                    return o.fields
+                if a == "_replace" and o.cls.is_namedtuple():
+                    def _replace(**kw):
+                        n = Obj(o.cls)
+                        n.fields = dict(o.fields)
+                        n.fields.update(kw)
+                        return n
+                    return ("host", _replace)
+                if a == "args" and any("Exception" in e or "Error" in e for e in o.cls.ext_bases()):
+                    return ()
+                c2, ga = o.cls.dunder("__getattr__")
+                if ga is not None:
+                    return Interp(c2.mod).call_func(FuncV(c2.mod, ga, self_obj=o, owner=c2), [a], {})
+                raise PyRaise("AttributeError", (self.mod.name if self.mod else "?", getattr(node, "lineno", 0), f"{o.cls.name}.{a}"),
+                              ExcV("AttributeError", (f"'{o.cls.name}' object has no attribute '{a}'",)))
+            if isinstance(st, ast.FunctionDef):
+                decs = _decorators(st)
+                if "staticmethod" in decs:
+                    return Interp(c.mod).decorate(st, FuncV(c.mod, st, owner=c), {})
+                if "classmethod" in decs:
+                    return FuncV(c.mod, st, self_obj=o.cls, owner=c)
+                f = FuncV(c.mod, st, self_obj=o, owner=c)
+                if "property" in decs:
+                    return Interp(c.mod).call_func(f, [], {})
+                if "cached_property" in decs:
+                    v = Interp(c.mod).call_func(f, [], {})
+                    o.fields[a] = v
+                    return v
+                return self._method_decorated(c, st, f)
+            return self._class_attr(c, a, st)
+        if isinstance(o, ClassV):
+            if a in ClassV.runtime_assigned or o.is_enum():
+                for k in o.mro():
+                    if a in k.attrs:
+                        return k.attrs[a]
+            if o.is_enum():
+                names = o.enum_member_names()
+                if a in names:
+                    for k in o.mro():
+                        for st in k.node.body:
+                            if isinstance(st, ast.Assign) and isinstance(st.targets[0], ast.Name) and st.targets[0].id == a:
+                                if isinstance(st.value, ast.Call) and ast.unparse(st.value.func).split(".")[-1] == "auto":
+                                    val = names.index(a) + 1
+                                else:
+                                    val = Interp(k.mod).ev(st.value, {"__parent__": k.closure} if k.closure is not None else {})
+                                m = EnumMember(o, a, val)
+                                o.attrs[a] = m
+                                return m
+                if a == "__members__":
+                    return {nm: self.getattr(o, nm) for nm in names}
+            if a in ("__name__", "__qualname__"):
+                return o.name
+            if a == "__mro__":
+                return tuple(o.mro())
+            if a == "__module__":
+                return o.mod.name
+            c, st = o.find(a)
+            if st is None:
+                if a == "__subclasses__":
+                    raise Unsupported("__subclasses__")
+                raise PyRaise("AttributeError", None, ExcV("AttributeError", (f"type object '{o.name}' has no attribute '{a}'",)))
+            if isinstance(st, ast.FunctionDef):
+                decs = _decorators(st)
+                if "classmethod" in decs:
+                    return FuncV(c.mod, st, self_obj=o, owner=c)
+                return Interp(c.mod).decorate(st, FuncV(c.mod, st, owner=c), {}) if "staticmethod" in decs else FuncV(c.mod, st, owner=c)
+            return self._class_attr(c, a, st)
+        if isinstance(o, EnumMember):
+            if a in ("value", "name"):
+                return getattr(o, a)
+            if a in ("_value_", "_name_"):
+                return getattr(o, a.strip("_"))
+            if a == "__class__":
+                return o.cls
+            c, st = o.cls.find(a)
             if isinstance(st, ast.FunctionDef):
                 decs = _decorators(st)
                 if "staticmethod" in decs:
@@ -1005,44 +1770,76 @@ class Interp:
                 if "property" in decs:
                     return Interp(c.mod).call_func(f, [], {})
                 return f
-            return Interp(c.mod).ev(st.value, {})
-        if isinstance(o, ClassV):
-            if o.is_enum():
-                for st in o.node.body:
-                    if isinstance(st, ast.Assign) and isinstance(st.targets[0], ast.Name) and st.targets[0].id == a:
-                        return EnumMember(o, a, Interp(o.mod).ev(st.value, {}))
-            if a in ("__name__", "__qualname__"):
-                return o.name
-            c, st = o.find(a)
-            if st is None:
-                raise PyRaise("AttributeError", None)
-            if isinstance(st, ast.FunctionDef):
-                decs = _decorators(st)
-                if "classmethod" in decs:
-                    return FuncV(c.mod, st, self_obj=o, owner=c)
-                return FuncV(c.mod, st, owner=c)
-            return Interp(c.mod).ev(st.value, {})
-        if isinstance(o, EnumMember):
-            if a in ("value", "name"):
-                return getattr(o, a)
-            c, st = o.cls.find(a)
-            if isinstance(st, ast.FunctionDef):
-                return FuncV(c.mod, st, self_obj=o, owner=c)
+            if st is not None and a not in o.cls.enum_member_names():
+                return self._class_attr(c, a, st)
+            if a in o.cls.enum_member_names():
+                return self.getattr(o.cls, a)
             raise PyRaise("AttributeError", None)
         if isinstance(o, FuncV) and a in ("cache_clear",):
-            return ("builtin", "noop")
-        if isinstance(o, FuncV) and a == "__name__":
-            return o.node.name
+            def clear(_n=o.node):
+                self._memo_table().pop(id(_n), None)
+            return ("host", clear)
+        if isinstance(o, FuncV) and a in ("__name__", "__qualname__"):
+            return getattr(o.node, "name", "<lambda>")
+        if isinstance(o, FuncV) and a == "__doc__":
+            return ast.get_docstring(o.node) if not isinstance(o.node, ast.Lambda) else None
+        if isinstance(o, FuncV) and a == "__wrapped__":
+            return o
+        if isinstance(o, FuncV) and a == "__self__":
+            return o.self_obj
+        if isinstance(o, GenV):
+            if a == "close":
+                return ("builtin", "noop")
+            raise Unsupported(f"getattr generator.{a}")
         if isinstance(o, (str, list, set, dict, tuple, frozenset, collections.defaultdict, int, bytes, FakeFile)):
+            if type(o) not in (str, list, set, dict, tuple, frozenset, int, bytes, bool, FakeFile, collections.defaultdict):
+                try:
+                    v = getattr(o, a)
+                except AttributeError as e:
+                    raise _host_exc(e)
+                if not callable(v):
+                    return v
             return ("pymethod", o, a)
         if type(o).__module__ in ("pathlib", "re"):
             v = getattr(o, a)
             return ("pymethod", o, a) if callable(v) else v
         if o is None:
-            raise PyRaise("AttributeError", (self.mod.name if self.mod else "?", getattr(node, "lineno", 0), f"None.{a}"))
-        if isinstance(o, type) and o in (dict, list, set, str, int, tuple, frozenset, bytes) and hasattr(o, a):
-            return ("pymethod", o, a)
-        raise Unsupported(f"getattr {o!r}.{a}")
+            raise PyRaise("AttributeError", (self.mod.name if self.mod else "?", getattr(node, "lineno", 0), f"None.{a}"),
+                          ExcV("AttributeError", (f"'NoneType' object has no attribute '{a}'",)))
+        if isinstance(o, type):
+            if a in ("__name__", "__qualname__"):
+                return o.__name__
+            if hasattr(o, a):
+                return ("pymethod", o, a)
+            raise PyRaise("AttributeError", None)
+        if isinstance(o, (Term, CtxMgrV, SuppressV)) or (isinstance(o, tuple) and len(o) in (2, 3) and isinstance(o[0], str) and o[0] in ("builtin", "pymethod", "host", "module")):
+            raise Unsupported(f"getattr {o!r}.{a}")
+        # any other concrete host value (deque, Counter, OrderedDict, namedtuple instance, float, bytearray, range, iterator ...)
+        try:
+            v = getattr(o, a)
+        except AttributeError as e:
+            raise _host_exc(e, (self.mod.name if self.mod else "?", getattr(node, "lineno", 0)))
+        return ("pymethod", o, a) if callable(v) else v
+
+    def _memo_table(self):
+        w = self.mod.world if self.mod is not None else None
+        if w is None:
+            raise Unsupported("no world")
+        return w.__dict__.setdefault("_memo", {})
+
+    def _class_attr(self, c, a, st):
+        """class-level attribute: evaluated once per class, like CPython's class namespace"""
+        if a not in c.attrs:
+            c.attrs[a] = Interp(c.mod).ev(st.value, {"__parent__": c.closure} if c.closure is not None else {})
+        return c.attrs[a]
+
+    def _method_decorated(self, c, st, f):
+        if not st.decorator_list:
+            return f
+        unbound = Interp(c.mod).decorate(st, FuncV(c.mod, st, owner=c), {})
+        if isinstance(unbound, FuncV) and unbound.node is st:
+            return f
+        return BoundHost(unbound, [f.self_obj], {})
 
     def ev_Call(self, n, env):
         if isinstance(n.func, ast.Name) and n.func.id == "super" and not n.args:
@@ -1088,56 +1885,125 @@ class Interp:
             return f[1](*args, **kw)
         if isinstance(f, tuple) and f[0] == "builtin":
             return self.call_builtin(f[1], args, kw)
+        if isinstance(f, BoundHost):
+            return self.call(f.f, f.args + list(args), {**f.kw, **kw})
         if isinstance(f, tuple) and f[0] == "pymethod":
             o, name = f[1], f[2]
-            if name in ("sort",) and "key" in kw:
+            if name in ("sort",) and "key" in kw and kw["key"] is not None:
                 key = kw["key"]
-                o.sort(key=lambda x: self.call(key, [x], {}), reverse=kw.get("reverse", False))
+                try:
+                    o.sort(key=lambda x: self.call(key, [x], {}), reverse=kw.get("reverse", False))
+                except TypeError as e:
+                    raise _host_exc(e)
                 return None
+            if isinstance(o, type) and o is dict and name == "fromkeys":
+                return dict.fromkeys(self.iterate(args[0]), *args[1:])
+            if name in ("extend", "update", "union", "intersection", "difference", "symmetric_difference", "issubset", "issuperset", "isdisjoint",
+                        "intersection_update", "difference_update", "symmetric_difference_update", "extendleft") and args:
+                args = [self.iterate(a) if isinstance(a, (GenV, Obj)) or (isinstance(a, ClassV) and a.is_enum()) else a for a in args]
             if name == "join":
                 return o.join([self.to_str(x) if isinstance(x, (Obj, EnumMember, Term)) else x for x in self.iterate(args[0])])
             if name == "format":
                 return o.format(*[self.to_str(x) if isinstance(x, (Obj, EnumMember, Term)) else x for x in args], **kw)
             try:
                 return getattr(o, name)(*args, **kw)
-            except (KeyError, IndexError, ValueError) as e:
-                raise PyRaise(type(e).__name__, None)
-            except AttributeError:
-                raise PyRaise("AttributeError", None)
+            except (KeyError, IndexError, ValueError, AttributeError, StopIteration, ZeroDivisionError, OverflowError, UnicodeError) as e:
+                raise _host_exc(e)
+            except TypeError as e:
+                if any(isinstance(x, (Term, Opaque)) for x in list(args) + list(kw.values())):
+                    raise Unsupported(f"{type(o).__name__}.{name} on abstract value: {e}")
+                raise _host_exc(e)
         if isinstance(f, tuple) and f[0] == "exc":
-            return ("excv", f[1])
+            return ExcV(f[1], args)
         if isinstance(f, type):
             if f is collections.defaultdict:
                 fac = args[0] if args else None
                 if isinstance(fac, (FuncV, ClassV)):
                     return collections.defaultdict(lambda: self.call(fac, [], {}), *args[1:])
                 return collections.defaultdict(*args)
-            if f is str and args and isinstance(args[0], (Obj, EnumMember, Term)):
+            if f is str and args and isinstance(args[0], (Obj, EnumMember, Term, ExcV)):
                 return self.to_str(args[0])
+            if f is bool and args:
+                return self.truth(args[0])
+            if f in (collections.deque, collections.Counter, collections.OrderedDict) and args and isinstance(args[0], (GenV, Obj)):
+                args = [self.iterate(args[0])] + list(args[1:])
             if f is int and args and isinstance(args[0], Term):
                 return args[0]
             if f in (list, set, tuple, frozenset, dict) and args:
                 if f is dict and isinstance(args[0], dict):
                     return dict(args[0])
                 return f(self.iterate(args[0]))
+            if any(isinstance(x, (FuncV, ClassV, BoundHost)) for x in list(args) + list(kw.values())):
+                args = [self.host_callable(x) if isinstance(x, (FuncV, ClassV, BoundHost)) else x for x in args]
+                kw = {k: self.host_callable(x) if isinstance(x, (FuncV, ClassV, BoundHost)) else x for k, x in kw.items()}
             try:
                 return f(*args, **kw)
-            except ValueError:
-                raise PyRaise("ValueError", None)
+            except (ValueError, KeyError, IndexError, OverflowError, UnicodeError, ZeroDivisionError) as e:
+                raise _host_exc(e)
+            except TypeError as e:
+                if any(isinstance(x, (Term, Opaque)) for x in list(args) + list(kw.values())):
+                    raise Unsupported(f"{f.__name__}() on abstract value: {e}")
+                raise _host_exc(e)
+        if isinstance(f, Obj):
+            return self.call_dunder(f, "__call__", args) if not kw else Interp(f.cls.mod).call_func(
+                FuncV(f.cls.dunder("__call__")[0].mod, f.cls.dunder("__call__")[1], self_obj=f, owner=f.cls.dunder("__call__")[0]), list(args), kw)
         if isinstance(f, ClassV):
             return self.instantiate(f, args, kw)
         if isinstance(f, FuncV):
             return self.call_func(f, args, kw)
         if isinstance(f, Opaque):
             return Opaque(f.name + "()")
-        if callable(f) and getattr(f, "__module__", None) in PURE_STDLIB + ("_binascii", "_sre"):
-            if any(isinstance(x, (Obj, Term, Opaque, FuncV, ClassV)) for x in list(args) + list(kw.values())):
+        fmod = getattr(f, "__module__", None) or getattr(type(f), "__module__", None)
+        if callable(f) and fmod in PURE_STDLIB + ("_binascii", "_sre"):
+            containerish = fmod in ("itertools", "collections", "_collections", "functools", "_functools", "operator", "_operator", "copy", "builtins")
+            if f in (operator.add, operator.sub, operator.mul, operator.or_, operator.and_, operator.xor, operator.floordiv, operator.mod,
+                     operator.lshift, operator.rshift, operator.pow) and len(args) == 2:
+                opn = {operator.add: ast.Add, operator.sub: ast.Sub, operator.mul: ast.Mult, operator.or_: ast.BitOr, operator.and_: ast.BitAnd,
+                       operator.xor: ast.BitXor, operator.floordiv: ast.FloorDiv, operator.mod: ast.Mod, operator.lshift: ast.LShift,
+                       operator.rshift: ast.RShift, operator.pow: ast.Pow}[f]
+                return self.binop(opn(), args[0], args[1])
+            if f in (operator.eq, operator.ne, operator.lt, operator.le, operator.gt, operator.ge) and len(args) == 2:
+                opn = {operator.eq: ast.Eq, operator.ne: ast.NotEq, operator.lt: ast.Lt, operator.le: ast.LtE, operator.gt: ast.Gt, operator.ge: ast.GtE}[f]
+                return self.compare(opn(), args[0], args[1])
+            if f is operator.not_:
+                return not self.truth(args[0])
+            if f is operator.truth:
+                return self.truth(args[0])
+            if f is operator.contains:
+                return self.compare(ast.In(), args[1], args[0])
+            if f is operator.getitem and isinstance(args[0], (Obj, ClassV)):
+                return self.call_dunder(args[0], "__getitem__", [args[1]])
+            if not containerish and any(isinstance(x, (Obj, Term, Opaque, FuncV, ClassV)) for x in list(args) + list(kw.values())):
                 raise Unsupported(f"library call {f!r} on abstract value")
+            if containerish:
+                args = [self.host_arg(x) for x in args]
+                kw = {k: self.host_arg(x) for k, x in kw.items()}
             try:
                 return f(*args, **kw)
+            except (PyRaise, Unsupported, _Ret, _Break, _Continue):
+                raise
             except Exception as e:  # the analysed code would see this exception
-                raise PyRaise(type(e).__name__, None)
+                if containerish and any(isinstance(x, (Term, Opaque)) for x in list(args) + list(kw.values())):
+                    raise Unsupported(f"library call {f!r} on abstract value: {e}")
+                raise _host_exc(e)
         raise Unsupported(f"call {f!r}")
+
+    def host_callable(self, v):
+        """a Python callable that evaluates the abstract callable `v` (handed to container / iteration helpers of the standard library)"""
+        return lambda *a, **k: self.call(v, list(a), k)
+
+    def host_arg(self, x):
+        if isinstance(x, ClassV) and x.is_enum():
+            return self.iterate(x)
+        if isinstance(x, (FuncV, ClassV, BoundHost)):
+            return self.host_callable(x)
+        if isinstance(x, tuple) and len(x) in (2, 3) and isinstance(x[0], str) and x[0] in ("builtin", "pymethod", "host", "exc"):
+            return self.host_callable(x)
+        if isinstance(x, Obj) and x.cls.dunder("__iter__")[1] is not None:
+            return self.iterate(x)
+        if isinstance(x, ClassV) and x.is_enum():
+            return self.iterate(x)
+        return x
 
     def call_builtin(self, name, args, kw):
         if name == "noop":
@@ -1151,18 +2017,26 @@ class Interp:
             return False
         if name in ("max", "min"):
             xs = list(args) if len(args) > 1 else self.iterate(args[0])
-            if "key" in kw:
+            if kw.get("key") is not None:
                 key = kw["key"]
                 if not xs and "default" in kw:
                     return kw["default"]
-                return (max if name == "max" else min)(xs, key=lambda x: self.call(key, [x], {}))
+                if not xs:
+                    raise PyRaise("ValueError", None, ExcV("ValueError", (f"{name}() arg is an empty sequence",)))
+                try:
+                    return (max if name == "max" else min)(xs, key=lambda x: self.call(key, [x], {}))
+                except TypeError as e:
+                    raise _host_exc(e)
             if any(isinstance(x, Term) for x in xs):
                 return Term(f'{name}({",".join(sorted(map(repr, xs)))})')
             if not xs:
                 if "default" in kw:
                     return kw["default"]
-                raise PyRaise("ValueError", None)
-            return (max if name == "max" else min)(xs)
+                raise PyRaise("ValueError", None, ExcV("ValueError", (f"{name}() arg is an empty sequence",)))
+            try:
+                return (max if name == "max" else min)(xs)
+            except TypeError as e:
+                raise _host_exc(e)
         if name == "print":
             w = self.mod.world
             if "file" in kw:
@@ -1191,9 +2065,98 @@ class Interp:
             if isinstance(o, tuple) and o[0] == "module":
                 return sorted(set(o[1].defs) | set(o[1].imports))
             raise Unsupported(f"dir of {o!r}")
+        if name == "NotImplemented":
+            raise PyRaise("TypeError", None, ExcV("TypeError", ("'NotImplementedType' object is not callable",)))
+        if name == "typing.cast":
+            return args[1] if len(args) > 1 else kw.get("val")
+        if name == "enum.auto":
+            raise Unsupported("enum.auto() outside an Enum body")
+        if name == "functools.partial":
+            return BoundHost(args[0], args[1:], kw)
+        if name == "contextlib.suppress":
+            return SuppressV(list(args))
+        if name == "operator.attrgetter":
+            names = list(args)
+
+            def ag(o, _names=names):
+                def one(o, nm):
+                    for part in nm.split("."):
+                        o = self.getattr(o, part)
+                    return o
+                r = tuple(one(o, nm) for nm in _names)
+                return r[0] if len(r) == 1 else r
+            return ("host", ag)
+        if name == "operator.methodcaller":
+            nm, margs, mkw = args[0], list(args[1:]), dict(kw)
+            return ("host", lambda o: self.call(self.getattr(o, nm), margs, mkw))
+        if name == "copy.copy":
+            v = args[0]
+            if isinstance(v, Obj) and v.cls.dunder("__copy__")[1] is not None:
+                return self.call_dunder(v, "__copy__", [])
+            return _copy.copy(v)
+        if name == "copy.deepcopy":
+            v = args[0]
+            if isinstance(v, Obj) and v.cls.dunder("__deepcopy__")[1] is not None:
+                return self.call_dunder(v, "__deepcopy__", [{}])
+            try:
+                return _copy.deepcopy(v)
+            except TypeError as e:
+                raise Unsupported(f"deepcopy: {e}")
+        if name == "iter":
+            if len(args) == 2:
+                raise Unsupported("iter(callable, sentinel)")
+            v = args[0]
+            return v if isinstance(v, GenV) or (hasattr(v, "__next__") and not isinstance(v, ABSTRACT)) else iter(self.iterate(v))
+        if name == "next":
+            try:
+                return next(args[0])
+            except StopIteration:
+                if len(args) > 1:
+                    return args[1]
+                raise PyRaise("StopIteration", None, ExcV("StopIteration", ()))
+            except TypeError as e:
+                raise _host_exc(e)
+        if name == "callable":
+            v = args[0]
+            if isinstance(v, Obj):
+                return v.cls.dunder("__call__")[1] is not None
+            return isinstance(v, (FuncV, ClassV, BoundHost)) or (isinstance(v, tuple) and len(v) in (2, 3) and v[0] in ("builtin", "pymethod", "host", "exc")) or (callable(v) and not isinstance(v, (Term, Opaque)))
+        if name in ("divmod", "pow", "round", "ord", "chr", "hex", "oct", "bin", "format", "ascii"):
+            if any(isinstance(a, (Term, Opaque, Obj)) for a in args):
+                raise Unsupported(f"{name} on abstract value")
+            try:
+                return getattr(_builtins, name)(*args, **kw)
+            except (TypeError, ValueError, ZeroDivisionError, OverflowError) as e:
+                raise _host_exc(e)
+        if name == "setattr":
+            o, a, v = args
+            if isinstance(o, ClassV):
+                o.attrs[a] = v
+                ClassV.runtime_assigned.add(a)
+            elif isinstance(o, (Obj, Opaque)):
+                self.assign_attr(o, a, v)
+            else:
+                raise Unsupported(f"setattr on {o!r}")
+            return None
+        if name == "delattr":
+            o, a = args
+            if isinstance(o, Obj) and a in o.fields:
+                del o.fields[a]
+                return None
+            raise PyRaise("AttributeError", None)
+        if name == "vars":
+            if args and isinstance(args[0], Obj):
+                return args[0].fields
+            raise Unsupported("vars()")
+        if name == "object":
+            return Obj(_object_class(self.mod.world))
         if name == "map":
+            if len(args) > 2:
+                return [self.call(args[0], list(xs), {}) for xs in zip(*[self.iterate(a) for a in args[1:]])]
             return [self.call(args[0], [x], {}) for x in self.iterate(args[1])]
         if name == "filter":
+            if args[0] is None:
+                return [x for x in self.iterate(args[1]) if self.truth(x)]
             return [x for x in self.iterate(args[1]) if self.truth(self.call(args[0], [x], {}))]
         if name == "getattr":
             try:
@@ -1218,8 +2181,10 @@ class Interp:
                 if key is not None:
                     return sorted(xs, key=lambda x: self.call(key, [x], {}), reverse=rev)
                 return sorted(xs, reverse=rev)
-            except TypeError:
-                raise Unsupported("sorted of unordered abstract values")
+            except TypeError as e:
+                if any(isinstance(x, (Term, Opaque)) for x in xs):
+                    raise Unsupported("sorted of unordered abstract values")
+                raise _host_exc(e)
         if name == "len":
             v = args[0]
             if isinstance(v, Obj):
@@ -1227,15 +2192,28 @@ class Interp:
                 if st is None:
                     raise PyRaise("TypeError", None)
                 return self.call_func(FuncV(c.mod, st, self_obj=v, owner=c), [], {})
-            if isinstance(v, (Term, Opaque)) or v is None:
+            if isinstance(v, (Term, Opaque)):
                 raise Unsupported(f"len of {v!r}")
-            return len(v)
+            if isinstance(v, ClassV) and v.is_enum():
+                return len(v.enum_member_names())
+            try:
+                return len(v)
+            except TypeError as e:
+                raise _host_exc(e)
         if name in ("hash", "id"):
             return id(args[0]) if name == "id" or isinstance(args[0], Obj) else hash(args[0])
         if name == "type":
             v = args[0]
-            if isinstance(v, Obj):
+            if len(args) == 3:
+                raise Unsupported("type(name, bases, dict)")
+            if isinstance(v, (Obj, EnumMember)):
                 return v.cls
+            if isinstance(v, ExcV):
+                return ("exc", v.name)
+            if isinstance(v, Term):
+                return int
+            if isinstance(v, (FuncV, ClassV, Opaque, GenV, BoundHost)) or (isinstance(v, tuple) and len(v) in (2, 3) and isinstance(v[0], str) and v[0] in ("builtin", "pymethod", "host", "exc", "module", "pymodule")):
+                raise Unsupported(f"type of {v!r}")
             return type(v)
         if name == "reversed":
             return list(reversed(self.iterate(args[0])))
@@ -1243,11 +2221,22 @@ class Interp:
             if any(isinstance(a, Term) for a in args):
                 raise Unsupported("range over symbolic term")
             return range(*args)
+        def _sum(x, start=0):
+            acc = start
+            for i in self.iterate(x):
+                acc = self.binop(ast.Add(), acc, i)
+            return acc
+
+        def _zip(*a, strict=False):
+            cols = [self.iterate(x) for x in a]
+            if strict and len({len(c) for c in cols}) > 1:
+                raise PyRaise("ValueError", None, ExcV("ValueError", ("zip() arguments have different lengths",)))
+            return list(zip(*cols))
         table = {"any": lambda x: any(self.truth(i) for i in self.iterate(x)),
                  "all": lambda x: all(self.truth(i) for i in self.iterate(x)),
                  "enumerate": lambda x, start=0: list(enumerate(self.iterate(x), start)),
-                 "zip": lambda *a: list(zip(*[self.iterate(x) for x in a])),
-                 "sum": lambda x, s=0: sum(self.iterate(x), s), "abs": abs}
+                 "zip": _zip,
+                 "sum": _sum, "abs": abs}
         if name in table:
             return table[name](*args, **kw)
         raise Unsupported(f"builtin {name}")
@@ -1255,12 +2244,27 @@ class Interp:
     def instantiate(self, cls, args, kw):
         if cls.is_enum():
             # Enum lookup by value
-            for st in cls.node.body:
-                if isinstance(st, ast.Assign) and isinstance(st.targets[0], ast.Name):
-                    m = self.getattr(cls, st.targets[0].id)
-                    if isinstance(m, EnumMember) and m.value == args[0]:
-                        return m
-            raise PyRaise("ValueError", None)
+            if len(args) != 1:
+                raise PyRaise("TypeError", None)
+            for nm in cls.enum_member_names():
+                m = self.getattr(cls, nm)
+                if isinstance(m, EnumMember) and (m is args[0] or (not isinstance(args[0], EnumMember) and m.value == args[0])):
+                    return m
+            raise PyRaise("ValueError", None, ExcV("ValueError", (f"{args[0]!r} is not a valid {cls.name}",)))
+        if any(isinstance(b, tuple) and b[1].split(".")[-1] in ("ABC",) for b in cls.bases()) or True:
+            abstract = cls.__dict__.get("_c_abstract")
+            if abstract is None:
+                abstract = []
+                seen = set()
+                for k in cls.mro():
+                    for st in k.node.body:
+                        if isinstance(st, ast.FunctionDef) and st.name not in seen:
+                            seen.add(st.name)
+                            if "abstractmethod" in _decorators(st):
+                                abstract.append(st.name)
+                cls.__dict__["_c_abstract"] = abstract
+            if abstract and any("ABC" in e for e in cls.ext_bases()):
+                raise PyRaise("TypeError", None, ExcV("TypeError", (f"Can't instantiate abstract class {cls.name} with abstract methods {', '.join(sorted(abstract))}",)))
         o = Obj(cls)
         c, init = cls.find("__init__")
         if init is not None and isinstance(init, ast.FunctionDef):
@@ -1289,6 +2293,11 @@ class Interp:
                         o.fields[nm] = Interp(c.mod).ev(dv, {})
                 else:
                     raise PyRaise("TypeError", None)
+            unknown = [k for k in kw if k not in [f[0] for f in fields]]
+            if unknown:
+                raise PyRaise("TypeError", None, ExcV("TypeError", (f"unexpected keyword argument {unknown[0]!r}",)))
+            if cls.dunder("__post_init__")[1] is not None:
+                self.call_dunder(o, "__post_init__", [])
             return o
         if args or kw:
             ext = cls.ext_bases()
@@ -1313,11 +2322,16 @@ class Interp:
         if len(vals) > len(params) and a.vararg is None:
             raise PyRaise("TypeError", None)
         kw = dict(kw)
+        kw0 = dict(kw)
         for i, p in enumerate(params):
             if i < len(vals):
+                if p in kw:
+                    raise PyRaise("TypeError", (f.mod.name, node.lineno, f"multiple values for argument {p}"))
                 env[p] = vals[i]
             elif p in kw:
                 env[p] = kw.pop(p)
+            elif defaults[i] is not None and hasattr(f, "defvals"):
+                env[p] = f.defvals[i - (len(params) - len(a.defaults))]
             elif defaults[i] is not None:
                 # default values are evaluated once, when the function is defined, and shared by all calls (CPython semantics)
                 cache = f.mod.world.__dict__.setdefault("_defaults", {})
@@ -1332,8 +2346,14 @@ class Interp:
         for p, d in zip(a.kwonlyargs, a.kw_defaults):
             if p.arg in kw:
                 env[p.arg] = kw.pop(p.arg)
+            elif d is not None and hasattr(f, "kwdefvals"):
+                env[p.arg] = f.kwdefvals[p.arg]
             elif d is not None:
-                env[p.arg] = Interp(f.mod).ev(d, {"__parent__": f.closure})
+                cache = f.mod.world.__dict__.setdefault("_defaults", {})
+                ck = (id(node), "kw", p.arg)
+                if ck not in cache:
+                    cache[ck] = Interp(f.mod).ev(d, {"__parent__": f.closure})
+                env[p.arg] = cache[ck]
             else:
                 raise PyRaise("TypeError", None)
         if a.kwarg is not None:
@@ -1343,11 +2363,49 @@ class Interp:
         it = Interp(f.mod)
         if isinstance(node, ast.Lambda):
             return it.ev(node.body, env)
+        decs = _decorators(node) if node.decorator_list else ()
+        if _has_yield(node):
+            if "contextmanager" in decs:
+                def run_cm(at_yield):
+                    env["__yield_cb__"] = at_yield
+                    try:
+                        it.exec_block(node.body, env)
+                    except _Ret:
+                        pass
+                return CtxMgrV(run_cm)
+
+            def run_gen():
+                out = env["__yield__"] = []
+                try:
+                    it.exec_block(node.body, env)
+                except _Ret:
+                    pass
+                return out
+            return GenV(run_gen)
+        if decs and ("lru_cache" in decs or "cache" in decs):
+            memo = it._memo_table().setdefault(id(node), {})
+            try:
+                key = (id(f.closure) if f.closure is not None else None, tuple(vals), tuple(sorted(kw0.items())))
+                hash(key)
+            except TypeError as e:
+                raise _host_exc(e)
+            if key in memo:
+                return memo[key]
+            try:
+                it.exec_block(node.body, env)
+                r = None
+            except _Ret as rr:
+                r = rr.v
+            memo[key] = r
+            return r
         try:
             it.exec_block(node.body, env)
         except _Ret as r:
             return r.v
         return None
+
+
+ABSTRACT = (Obj, Term, Opaque, FuncV, ClassV, EnumMember)
 
 
 def _as_load(t):
